@@ -10,6 +10,7 @@ cdef class ModificationInfo:
         public object cut_prefix
         public object cut_suffix
         public object is_rc
+        public object removed_prefix_length
 
     def __init__(self, read):
         self.matches = []
@@ -17,6 +18,8 @@ cdef class ModificationInfo:
         self.cut_prefix = None
         self.cut_suffix = None
         self.is_rc = None
+        # No. of bases removed from the 5' end before adapter trimming
+        self.removed_prefix_length = 0
 
     def __repr__(self):
         return (
